@@ -231,7 +231,17 @@ example : tooLongHistory orders = [.apiDiff 10 0, .apiDiff 10 0, .tooLong, .stor
 /-- The regenerated orders are the ones the manager-level invariant is proved for. -/
 theorem orders_good : GoodOrders orders :=
   ⟨by decide, by decide, by decide, by decide, by decide, by decide, by decide, by decide, by decide, by decide,
-   by decide, by decide, by decide, by decide, by decide, by decide⟩
+   by decide, by decide, by decide, by decide, by decide, by decide, by decide, by decide, by decide⟩
+
+/-- The regenerated guards: the apply callbacks dispatch only a non-empty converted batch
+(`applyQts` always: its batch has no markers), the difference branches dispatch when any of new
+messages, new encrypted messages or own other-updates is present (channel: new messages or own),
+re-routing / handing over happens only for a non-empty rest. -/
+theorem dispatch_guards :
+    Facts.C03.applyPtsGuard = [3] ∧ Facts.C03.applyQtsGuard = [100] ∧ Facts.C03.chApplyPtsGuard = [3] ∧
+    Facts.C03.diffGuard = [0, 1, 2] ∧ Facts.C03.sliceGuard = [0, 1, 2] ∧ Facts.C03.chDiffGuard = [0, 2] ∧
+    Facts.C03.diffRerouteGuard = [4] ∧ Facts.C03.sliceRerouteGuard = [4] ∧ Facts.C03.chSendOutGuard = [4] := by
+  decide
 
 /-- **Prefix safety for the whole manager model.** For any server world satisfying `scnOK`, any
 persisted start, any number of tracked channels and any list of harness actions, the trace of the
